@@ -761,6 +761,8 @@ class C11(Prop):
 
         def conv(v):
             if dt in ("f8", "f4"):
+                if dt == "f4" and isnum(v) and abs(v) >= 2 ** 20:  # float32 holds 24 bits
+                    v = v % 2 ** 20
                 return 4 * v if integers and isnum(v) else v
             if not isnum(v):
                 v = rng.randint(0, 5)
